@@ -25,9 +25,9 @@ SUBS = [{"theta": 0.3}, {"theta": -1.7}]
 def ops_alphabet():
     A = []
     for g in (G("X"), G("H"), G("T"), G("RX", 0.3), G("RX", "s:theta"), G("U3", 0.3, -1.1, 2.5), W("dagger", G("T")), W("power", G("T"), e=3), W("power", G("T"), e="1/2"),
-              W("power", G("X"), e="1/2"), G("custom1")):
+              W("power", G("X"), e="1/2"), G("custom1"), G("customsym1")):
         A += [{"gate": g, "q": [q]} for q in ((0, 2) if g.get("g") in ("H", "U3") or "w" in g else (0, 1, 2))]
-    for g in (G("CNOT"), G("CPHASE", 0.3), W("controlled", G("X"), k=1), G("custom2"), W("controlled", G("RY", "s:theta"), k=1)):
+    for g in (G("CNOT"), G("CPHASE", 0.3), W("controlled", G("X"), k=1), G("custom2"), G("customsym2"), W("controlled", G("RY", "s:theta"), k=1)):
         A += [{"gate": g, "q": list(p)} for p in ((0, 1), (2, 0), (1, 2))]
     A.append({"gate": W("exp", G("RZ", 0.3)), "q": [1]})
     return A
